@@ -510,3 +510,10 @@ fn replay(_opts: &Opts, d: &Value, acc: &mut Acc) {
     }
     acc.inconclusive.push("C11 replay needs a genome (random histories) — grid histories are re-enumerated by every run".into());
 }
+
+/// libFuzzer entry: one generated history
+pub fn fuzz_case(genome: &[u8], acc: &mut Acc) -> Vec<Failure> {
+    let mut g = G::new(genome);
+    let ops = gen_history(&mut g);
+    run_history(&ops, "fuzz", acc)
+}
